@@ -1,6 +1,6 @@
 # Sizing and claim for C16 (string_stream histories)
 SPEC = {
-    "quick": {"rc_cases": 5000, "rc_procs": 8},
+    "quick": {"rc_cases": 50000, "rc_procs": 12},
     "thorough": {"rc_cases": 100000, "rc_procs": 12, "fuzz_secs": 180, "fuzz_workers": 8},
     "assumptions": [
         "the allocation registry sees every operator new/delete; blocks are attributed to the library when allocated inside a library call",
